@@ -321,6 +321,28 @@ def fam_closures():
     add("let-multi", [Let(["a", "b"], [I(1), I(2)]), Let(["a", "b"], [Id("b"), Id("a")]), P(Id("a")), P(Id("b")), Ret(I(0))])
     add("module-error-scope", [Let("x", I(1)), Try([Module("m", [Let("x", I(2)), Var("priv", I(7)), Throw(S("in module"))])], "e", [P(Id("e")), rd("priv"), P(Id("x"))]), rd("priv"), P(Id("x")), Ret(I(0))])
     add("func-error-scope", [Let("x", I(1)), FnStmt("f", [], [Var("loc", I(7)), Throw(S("in f"))]), Try([E(Call("f"))], "e", [P(Id("e")), rd("loc")]), rd("loc"), Ret(I(0))])
+    # every invocation has its own scope: a closure leaked by one invocation never sees what a LATER invocation of the same function binds
+    add("invocation-scopes-distinct", [Let("g", NIL), Let("c", I(0)),
+        FnStmt("f", [], [Let("c", Bin("+", Id("c"), I(1))), If(Bin("==", Id("c"), I(1)), [Let("g", Fn([], [Ret(Nilco(Id("x"), S("undef")))]))], els=[Var("x", I(7)), P(Id("x"))]), Ret(I(0))]),
+        E(Call("f")), P(ACall(Id("g"))), E(Call("f")), P(ACall(Id("g"))), E(Call("f")), P(ACall(Id("g"))), rd("x"), Ret(I(0))])
+    add("invocation-scopes-distinct-set", [Let("g", NIL), Let("c", I(0)),
+        FnStmt("f", [], [Let("c", Bin("+", Id("c"), I(1))), If(Bin("==", Id("c"), I(1)), [Let("g", Fn([], [Let("y", Bin("+", Nilco(Id("y"), I(100)), I(1))), Ret(Id("y"))]))]), If(Bin(">", Id("c"), I(1)), [Let("y", I(5)), P(Id("y"))]), Ret(I(0))]),
+        E(Call("f")), E(Call("f")), P(ACall(Id("g"))), E(Call("f")), P(ACall(Id("g"))), rd("y"), Ret(I(0))])
+    for outer in (False, True):
+        add("invocation-scopes-early-return-%s" % ("outer" if outer else "noouter"), ([Let("t", I(1))] if outer else []) + [Let("n", I(0)),
+            FnStmt("mk", [], [Let("n", Bin("+", Id("n"), I(1))), If(Bin("==", Id("n"), I(1)), [Ret(Fn([], [Ret(Nilco(Id("t"), S("undef")))]))]), Var("t", Bin("*", Id("n"), I(7))), P(Id("t")), Ret(NIL)]),
+            Let("k", Call("mk")), P(ACall(Id("k"))), E(Call("mk")), P(ACall(Id("k"))), E(Call("mk")), P(ACall(Id("k"))), Ret(I(0))])
+        add("invocation-scopes-early-return-assign-%s" % ("outer" if outer else "noouter"), ([Let("t", I(1))] if outer else []) + [Let("n", I(0)),
+            FnStmt("mk", [], [Let("n", Bin("+", Id("n"), I(1))), If(Bin("==", Id("n"), I(1)), [Ret(Fn([], [Let("t", Bin("+", Nilco(Id("t"), I(100)), I(1))), Ret(Id("t"))]))]), Var("t", I(50)), P(Id("t")), Ret(NIL)]),
+            Let("k", Call("mk")), E(Call("mk")), P(ACall(Id("k"))), P(ACall(Id("k"))), rd("t"), Ret(I(0))])
+    add("invocation-scopes-anon", [Let("gs", L()), Let("mk", Fn([], [Let("gs", Bin("+", Id("gs"), L(Fn([], [Ret(Nilco(Id("z"), S("undef")))])))), If(Bin(">", Len_(Id("gs")), I(1)), [Var("z", Len_(Id("gs")))]), Ret(I(0))])),
+        E(ACall(Id("mk"))), E(ACall(Id("mk"))), E(ACall(Id("mk"))), P(ACall(Idx(Id("gs"), I(0)))), P(ACall(Idx(Id("gs"), I(1)))), P(ACall(Idx(Id("gs"), I(2)))), Ret(I(0))])
+    # a name is looked up every time the call site runs: the same site calls whatever the name is bound to NOW
+    add("callsite-higher-order", [FnStmt("ap", ["f"], [Ret(Call("f", I(1)))]), P(Call("ap", Fn(["a"], [Ret(Bin("+", Id("a"), I(10)))]))), P(Call("ap", Fn(["a"], [Ret(Bin("+", Id("a"), I(20)))]))), P(Call("ap", Fn(["a"], [Ret(S("s"))]))), Ret(I(0))])
+    add("callsite-rebound", [Let("h", Fn([], [Ret(S("old"))])), FnStmt("w", [], [Ret(Call("h"))]), P(Call("w")), Let("h", Fn([], [Ret(S("new"))])), P(Call("w")), Ret(I(0))])
+    add("callsite-loop-shadow", [FnStmt("k", [], [Ret(I(1))]), Let("r", L()), ForIn("i", L(I(1), I(2), I(3)), [Let("r", Bin("+", Id("r"), L(Call("k")))), If(Bin("==", Id("i"), I(1)), [Var("k", Fn([], [Ret(I(2))]))])]), P(Id("r")), P(Call("k")), Ret(I(0))])
+    add("callsite-param-vs-global", [FnStmt("t", [], [Ret(S("global"))]), FnStmt("u", ["t"], [Ret(Call("t"))]), P(Call("u", Fn([], [Ret(S("param1"))]))), P(Call("t")), P(Call("u", Fn([], [Ret(S("param2"))]))), Ret(I(0))])
+    add("callsite-defer-name", [FnStmt("d1", [], [P(1), Ret(I(0))]), FnStmt("d2", [], [P(2), Ret(I(0))]), FnStmt("run", ["cb"], [Defer(Call("cb")), P(0), Ret(I(0))]), E(Call("run", Id("d1"))), E(Call("run", Id("d2"))), E(Call("run", Id("d1"))), Ret(I(0))])
     # a closure made in a nested block of an invocation that has bound nothing yet escapes the block; the invocation binds a name
     # afterwards; the closure must see (and assign) that binding: scopes are linked by position, not by what they hold at the time
     for w in SCOPE_WRAPS:
